@@ -6,6 +6,7 @@ repository's corpus.  The VM model the soundness theorem talks about is validate
 interpreter on the same functions (T2 traces), and the labelling is compared with the real
 (depth, operand length) observations of the trace hook."""
 import os
+import re
 import shutil
 
 from . import core, programs, vmtie, coregen, coretie
@@ -185,6 +186,42 @@ def check_trace_against_labelling(trace, certs):
     return None, checked
 
 
+# ---- instructions complain about the operand stack / the frames they find with these words: no compiled program may
+# ever make the interpreter say one of them (whatever else the program does)
+SHAPE_COMPLAINT = re.compile(r"can only store a single item|requires a stack size of|requires only 2 items|requires one item on the local|requires two items in the local|"
+                             r"the stack is empty|there is no item in the local stack|should have a clean operating stack|can only return a single item|"
+                             r"can only operate on a single item|missing argument, and|require at least one entry in the local stack|could not get op items|"
+                             r"has not been mapped at this scope|requires a primitive at the top|expected an item at the top of the operating stack|"
+                             r"require only a single item on the operating stack|STACK MISMATCH")
+
+
+def opassign_operand_programs():
+    """(outside the Core AST: lists, maps, fields) compound assignment to every kind of target with every form of right
+    operand -- the operand's own instructions run while the target is being worked on.  Fixed; Python oracle."""
+    pre = ("n = 3\nrate = 2\nxs: [int...] = [10, 20, 30]\nm = map[str, int] { \"k\": 5 }\nclass Bx {\n  v: int\n  constructor(self) {\n    self.v = 7\n  }\n"
+           "  fn fetch(self) -> int {\n    return self.v\n  }\n}\no = Bx()\nf = fn(x: int) -> int {\n  return x + 1\n}\ng = fn(x: int) -> int {\n  return x * 2\n}\nopt: int? = nil\ni = 1\n")
+    targets = [("x", "x = 4\n", 4), ("xs[1]", "", 20), ("xs[i]", "", 20), ("xs[i + 1]", "", 30), ("m[\"k\"]", "", 5), ("o.v", "", 7)]
+    rhss = [("rate * n", 6), ("f(n)", 4), ("f(n) + g(n)", 10), ("xs[0]", 10), ("xs[f(0) - 1]", 10), ("[1, 2][0]", 1), ("o.fetch()", 7), ("(opt) or 3", 3),
+            ("-n", -3), ("f(f(n))", 5), ("m[\"k\"] + xs[0]", 15), ("n", 3), ("9", 9), ("(n + 1) * (rate - 5)", -12)]
+    out = []
+    for tgt, decl, init in targets:
+        for op in ("+=", "-=", "*="):
+            for rhs, rv in rhss:
+                val = init + rv if op == "+=" else init - rv if op == "-=" else init * rv
+                body = "%s%s %s %s\nprint %s\n" % (decl, tgt, op, rhs, tgt)
+                for where in ("module", "function", "loop"):
+                    if where == "module":
+                        src = pre + body
+                    elif where == "function":
+                        src = pre + "run = fn() {\n" + "".join("  " + l + "\n" for l in body.split("\n")[:-1]) + "}\nrun()\n"
+                    else:
+                        if tgt == "x":
+                            continue
+                        src = pre + "from 0 to 1 {\n  if n == 3 {\n" + "".join("    " + l + "\n" for l in body.split("\n")[:-1]) + "  }\n}\n"
+                    out.append({"name": "opassign %s %s %s (%s)" % (tgt, op, rhs, where), "files": {"main.ms": src}, "entry": "main.ms", "kind": "catalogue", "expect": [str(val)]})
+    return out
+
+
 def run(ctx):
     ok = core.coq_props(ctx, "Props/C09.v")
     binary = core.build_repo()
@@ -220,6 +257,15 @@ def run(ctx):
         p = dict(p)
         p["kind"] = "corpus"
         projs.append(p)
+    projs += opassign_operand_programs()
+    # "all generated programs of the other properties": their fixed catalogues (sources only; their own checks judge the output)
+    from . import c07, c15, c17
+    others = [c[2] for c in c07.capture_position_cases()] + [c[1] for c in c07.MODIFY_ALIAS_CASES + c07.CLOSURE_FLAG_CASES + c07.OWNER_WRITE_CASES] + [c[2] for c in c07.SELF_CAPTURE_CASES]
+    lg = "log = fn(k: int) -> int {\n  print k\n  return k\n}\n"
+    others += [lg + c[0] for c in c15.fixed_cases()] + [lg + c[2] for c in c15.opassign_cases(ctx.rng, 30)] + [lg + c[0] for c in c15.extended_cases(ctx.rng, 30)]
+    others += [c[1] for c in c17.completed_block_cases()[::3]]
+    for i, src in enumerate(others):
+        projs.append({"name": "other-catalogue%d" % i, "files": {"main.ms": src}, "entry": "main.ms", "kind": "catalogue"})
 
     def one(proj):
         real = vmtie.run_real(binary, proj, base, timeout=15)
@@ -235,6 +281,9 @@ def run(ctx):
                 model = vmtie.run_model(drv, real["dump"], entry)
                 out["t2"] = vmtie.compare(proj, real, model)
         out["stderr"] = real["stderr"][-400:]
+        m = SHAPE_COMPLAINT.search(real["stderr"])
+        out["shape"] = m.group(0) if m else None
+        out["stdout"] = real["stdout"]
         shutil.rmtree(real["dir"], ignore_errors=True)
         return out
 
@@ -244,8 +293,14 @@ def run(ctx):
     distinct = set()
     for r in results:
         proj = r["proj"]
+        if r.get("shape") and r["shape"] != "STACK MISMATCH":
+            ctx.report("operand-shape-at-run-time", "running %s makes an instruction complain about the stack it finds (`%s`): %s" % (proj["name"], r["shape"], r["stderr"][-300:].replace("\n", " ")),
+                       {"project": {k: v for k, v in proj.items() if k != "tree"}, "stderr": r["stderr"], "how": "mscript run main.ms -q"})
+        elif proj.get("expect") is not None and r["dump"] is not None and (r["real_rc"] != 0 or r["stdout"].split("\n")[:-1] != proj["expect"]):
+            ctx.report("catalogue-program-fails", "%s: exit %s, printed %r, expected %r: %s" % (proj["name"], r["real_rc"], r["stdout"].split("\n")[:-1], proj["expect"], r["stderr"][-300:].replace("\n", " ")),
+                       {"project": proj, "stderr": r["stderr"], "how": "mscript run main.ms -q"})
         if r["dump"] is None:
-            if proj["kind"] == "skeleton":
+            if proj["kind"] in ("skeleton", "catalogue") and proj.get("expect") is not None or proj["kind"] == "skeleton":
                 ctx.report("skeleton-rejected", "a skeleton program was rejected by the compiler: %s" % r["stderr"][-300:],
                            {"project": proj}, found_input=False)
             n_rej += 1
